@@ -60,6 +60,7 @@ def check(rep: Report, ctx: Ctx) -> None:
     r18(rep, ctx)
     r19(rep, ctx)
     r110(rep, ctx)
+    r111(rep, ctx)
 
 
 def r18(rep: Report, ctx: Ctx) -> None:
@@ -634,3 +635,80 @@ def r110(rep: Report, ctx: Ctx) -> None:
     rep.ob("R1.10", "the logic lists are flattened totally", ok, fi=tl,
            node=loops2[0] if loops2 else tl.node,
            detail="leaf -> append, gate -> extend(recurse), for every entry")
+
+
+# --------------------------------------------------------------------------
+def r111(rep: Report, ctx: Ctx) -> None:
+    """Direction pairing at the Event -> Node hand-off: merge-point
+    validation reads ``Node.eventsets_incoming``; the walk follows the
+    *outgoing* logic.  Crossing them validates merges against the successor
+    sets (or builds branches from predecessors)."""
+    rep.rule("R1.11", "Event -> Node hand-off keeps directions: incoming "
+             "sets from in_event_sets, outgoing logic from the gate tree of "
+             "the successor sets", 3)
+    mk = ctx.func("create_node_from_event")
+    ev = mk.params()[0]
+    reach = ctx.reach(mk)
+    st = [a for a in ast.walk(mk.node) if isinstance(a, ast.Assign)
+          and isinstance(a.targets[0], ast.Attribute)
+          and a.targets[0].attr == "eventsets_incoming"]
+    ok = len(st) == 1
+    v = reach.resolve(st[0].value, at=st[0]) if ok else None
+    ok = ok and isinstance(v, ast.Attribute) and v.attr == "in_event_sets" \
+        and isinstance(v.value, ast.Name) and v.value.id == ev \
+        and not cguards(ctx, mk, st[0])
+    rep.ob("R1.11", "node.eventsets_incoming <- event.in_event_sets", ok,
+           fi=mk, node=st[0] if st else mk.node,
+           detail=unparse(st[0]) if st else "<missing>")
+    up = ctx.func("update_outgoing_logic_nodes")
+    e2, n2 = up.params()[0], up.params()[1]
+    calls = [c for c in ast.walk(up.node) if isinstance(c, ast.Call)
+             and call_name(c) == "load_logic_into_list"]
+    ok = len(calls) == 1
+    if ok:
+        c = calls[0]
+        a0 = ctx.reach(up).resolve(c.args[0], at=c) if c.args else None
+        d = c.args[1] if len(c.args) > 1 else None
+        ok = isinstance(a0, ast.Attribute) and a0.attr == "logic_gate_tree" \
+            and isinstance(a0.value, ast.Name) and a0.value.id == e2 \
+            and isinstance(d, ast.Constant) and d.value == "outgoing" \
+            and isinstance(c.func.value, ast.Name) and c.func.value.id == n2
+    rep.ob("R1.11", "node.load_logic_into_list(event.logic_gate_tree, "
+           "'outgoing')", ok, fi=up, node=calls[0] if calls else up.node,
+           detail=unparse(calls[0]) if calls else "<missing>")
+    getter = ctx.func("Event.logic_gate_tree")
+    src = [c for c in ast.walk(getter.node) if isinstance(c, ast.Call)
+           and call_name(c) == "calculate_logic_gates"]
+    ok = len(src) == 1 and src[0].args and unparse(src[0].args[0]) == \
+        "self.event_sets"
+    rep.ob("R1.11", "the gate tree is inferred from the successor sets", ok,
+           fi=getter, node=src[0] if src else getter.node,
+           detail=unparse(src[0]) if src else "<missing>")
+    edge = ctx.func("update_graph_with_node_tuple")
+    ups = [c for c in ast.walk(edge.node) if isinstance(c, ast.Call)
+           and call_name(c) == "update_node_list_with_node"]
+    # local name -> NodeTuple field (by unpacking position or attribute)
+    fields = [n for n, _ in ctx.index.cls("NodeTuple").fields()]
+    role: dict[str, str] = {}
+    for a in ast.walk(edge.node):
+        if isinstance(a, ast.Assign) and isinstance(a.targets[0], ast.Tuple) \
+                and isinstance(a.value, ast.Name) and a.value.id == \
+                edge.params()[0] and len(a.targets[0].elts) == len(fields):
+            for t, f_ in zip(a.targets[0].elts, fields):
+                if isinstance(t, ast.Name):
+                    role[t.id] = f_
+
+    def rl(e: ast.AST) -> str:
+        if isinstance(e, ast.Name):
+            return role.get(e.id, e.id)
+        if isinstance(e, ast.Attribute) and e.attr in fields:
+            return e.attr
+        return unparse(e)
+    pairs = sorted((rl(c.func.value), rl(c.args[0]),
+                    c.args[1].value if isinstance(c.args[1], ast.Constant)
+                    else "?") for c in ups if len(c.args) == 2)
+    ok = pairs == [("in_node", "out_node", "incoming"),
+                   ("out_node", "in_node", "outgoing")]
+    rep.ob("R1.11", "an edge registers the head under 'outgoing' of the tail "
+           "and the tail under 'incoming' of the head", ok, fi=edge,
+           node=ups[0] if ups else edge.node, detail=str(pairs))
